@@ -33,15 +33,24 @@ type KeyID string
 // SignJSON signs a JSON object returning a copy signed with the given key.
 // https://matrix.org/docs/spec/server_server/unstable.html#signing-json
 func SignJSON(signingName string, keyID KeyID, privateKey ed25519.PrivateKey, message []byte) (signed []byte, err error) {
+	// Only the members named exactly "signatures" and "unsigned" are special: decoding into a
+	// struct would also match names that differ in letter case.
+	var object map[string]json.RawMessage
+	if err = json.Unmarshal(message, &object); err != nil {
+		return nil, err
+	}
 	preserve := struct {
 		// The signatures of other entities and keys are carried over as they are.
-		Signatures map[string]map[KeyID]json.RawMessage `json:"signatures"`
-		Unsigned   spec.RawJSON                         `json:"unsigned"`
+		Signatures map[string]map[KeyID]json.RawMessage
+		Unsigned   json.RawMessage
 	}{
 		Signatures: map[string]map[KeyID]json.RawMessage{},
+		Unsigned:   object["unsigned"],
 	}
-	if err = json.Unmarshal(message, &preserve); err != nil {
-		return nil, err
+	if signatures, ok := object["signatures"]; ok {
+		if err = json.Unmarshal(signatures, &preserve.Signatures); err != nil {
+			return nil, err
+		}
 	}
 	if message, err = sjson.DeleteBytes(message, "signatures"); err != nil {
 		return nil, err
@@ -88,14 +97,18 @@ func SignJSON(signingName string, keyID KeyID, privateKey ed25519.PrivateKey, me
 
 // ListKeyIDs lists the key IDs a given entity has signed a message with.
 func ListKeyIDs(signingName string, message []byte) ([]KeyID, error) {
-	var object struct {
-		Signatures map[string]map[KeyID]json.RawMessage `json:"signatures"`
-	}
+	var object map[string]json.RawMessage
 	if err := json.Unmarshal(message, &object); err != nil {
 		return nil, err
 	}
+	var signatures map[string]map[KeyID]json.RawMessage
+	if raw, ok := object["signatures"]; ok {
+		if err := json.Unmarshal(raw, &signatures); err != nil {
+			return nil, err
+		}
+	}
 	var result []KeyID
-	for keyID := range object.Signatures[signingName] {
+	for keyID := range signatures[signingName] {
 		result = append(result, keyID)
 	}
 	return result, nil
